@@ -464,7 +464,7 @@ func (g *G) fieldWhere(s *st, label string, pred func(*Field) bool) *Field {
 
 func (g *G) cutOp(s *st) string {
 	g.feat("cut")
-	n := 1+Uniform(g.t, 3, "ncut")
+	n := 1 + Uniform(g.t, 3, "ncut")
 	var parts []string
 	var out []*Field
 	used := map[string]bool{}
@@ -503,7 +503,7 @@ func (g *G) cutOp(s *st) string {
 
 func (g *G) dropOp(s *st) string {
 	g.feat("drop")
-	n := 1+Uniform(g.t, 2, "ndrop")
+	n := 1 + Uniform(g.t, 2, "ndrop")
 	var parts []string
 	used := map[string]bool{}
 	for i := 0; i < n; i++ {
@@ -523,7 +523,7 @@ func (g *G) dropOp(s *st) string {
 
 func (g *G) putOp(s *st) string {
 	g.feat("put")
-	n := 1+Uniform(g.t, 2, "nput")
+	n := 1 + Uniform(g.t, 2, "nput")
 	var parts []string
 	used := map[string]bool{}
 	var outs []*Field
@@ -574,7 +574,7 @@ func (g *G) yieldOp(s *st) string {
 	switch g.intn(4, "yieldkind") {
 	case 0:
 		// record literal: the stream keeps holding records
-		n := 1+Uniform(g.t, 3, "nyield")
+		n := 1 + Uniform(g.t, 3, "nyield")
 		var parts []string
 		var out []*Field
 		used := map[string]bool{}
@@ -676,7 +676,7 @@ func (g *G) sortOp(s *st) string {
 
 func (g *G) headTail(s *st) string {
 	pre := g.needOrder(s)
-	n := 1+Uniform(g.t, 6, "headn")
+	n := 1 + Uniform(g.t, 6, "headn")
 	if g.chance(60, "head?") {
 		g.feat("head")
 		if n == 1 && g.chance(50, "head-bare") {
@@ -768,7 +768,7 @@ func (g *G) summarizeOpKey(s *st, onKey bool) string {
 	g.feat("summarize")
 	limit := 0
 	if !g.o.NoLimit && !onKey && g.chance(25, "limit?") {
-		limit = 1+Uniform(g.t, 4, "limit")
+		limit = 1 + Uniform(g.t, 4, "limit")
 	}
 	pre := ""
 	ordered := s.ordered && limit == 0
@@ -946,7 +946,7 @@ func mergeFields(legs []*st) []*Field {
 
 func (g *G) forkOp(s *st) string {
 	g.feat("fork")
-	n := 2+Uniform(g.t, 2, "nlegs")
+	n := 2 + Uniform(g.t, 2, "nlegs")
 	var legs []*st
 	var texts []string
 	mergeKey := ""
@@ -986,7 +986,7 @@ func (g *G) forkOp(s *st) string {
 
 func (g *G) switchOp(s *st) string {
 	g.feat("switch")
-	n := 1+Uniform(g.t, 3, "ncases")
+	n := 1 + Uniform(g.t, 3, "ncases")
 	var legs []*st
 	var sb strings.Builder
 	exprSwitch := g.chance(30, "exprswitch")
@@ -1037,7 +1037,7 @@ func (g *G) joinLeg(s *st, key string) string {
 	g.nest++
 	defer func() { g.nest-- }()
 	var ops []string
-	n := 0+Uniform(g.t, 3, "joinlegops")
+	n := 0 + Uniform(g.t, 3, "joinlegops")
 	for i := 0; i < n; i++ {
 		switch g.intn(6, "joinlegop") {
 		case 0, 1:
@@ -1098,7 +1098,7 @@ func (g *G) joinOpKey(s *st, onKey bool) string {
 	var args []string
 	out := append([]*Field(nil), base.fields...)
 	if style != "anti " {
-		na := 0+Uniform(g.t, 3, "njoinargs")
+		na := 0 + Uniform(g.t, 3, "njoinargs")
 		used := map[string]bool{}
 		for i := 0; i < na; i++ {
 			name := g.freshName(s)
